@@ -75,6 +75,19 @@ Definition tg (a b : byte) : str := [a; b].
 (* parse_version *)
 Definition parse_version : parser str := preceded (tag (tg "V" "V")) parse_line.
 
+(* parse_tag: the line codes the parser knows *)
+Inductive tagk :=
+| TAC | TBA | TBS | TBF | TCC | TCO | TDE | TDT | TID | TNA | TP0 | TRN | TXX | TEND.
+Definition is2 (x y a b : byte) : bool := beq x a && beq y b.
+Definition classify (a b : byte) : option tagk :=
+  if is2 "A" "C" a b then Some TAC else if is2 "B" "A" a b then Some TBA
+  else if is2 "B" "S" a b then Some TBS else if is2 "B" "F" a b then Some TBF
+  else if is2 "C" "C" a b then Some TCC else if is2 "C" "O" a b then Some TCO
+  else if is2 "D" "E" a b then Some TDE else if is2 "D" "T" a b then Some TDT
+  else if is2 "I" "D" a b then Some TID else if is2 "N" "A" a b then Some TNA
+  else if is2 "P" "0" a b then Some TP0 else if is2 "P" "O" a b then Some TP0
+  else if is2 "R" "N" a b then Some TRN else if is2 "X" "X" a b then Some TXX
+  else if is2 "/" "/" a b then Some TEND else None.
 Section Grammar.
   Variable sp1 : parser str.
   Variable al : alpha.
@@ -100,15 +113,12 @@ Section Grammar.
     delimited u32 (count_ (delimited space0 parse_element space0) k) parse_line.
 
   (* parse_tag *)
-  Definition known_tag (a b : byte) : bool :=
-    match a, b with
-    | "A", "C" | "B", "A" | "B", "S" | "B", "F" | "C", "C" | "C", "O" | "D", "E" | "D", "T"
-    | "I", "D" | "N", "A" | "P", "0" | "P", "O" | "R", "N" | "X", "X" | "/", "/" => true
-    | _, _ => false
-    end.
-  Definition parse_tag : parser (byte * byte) :=
+  Definition parse_tag : parser (tagk * (byte * byte)) :=
     fun i => match i with
-             | a :: b :: r => if known_tag a b then POk (a, b) r else PError
+             | a :: b :: r => match classify a b with
+                              | Some k => POk (k, (a, b)) r
+                              | None => PError
+                              end
              | _ => PError
              end.
 
@@ -118,14 +128,12 @@ Section Grammar.
       pbind (preceded (terminated (tag (tg "R" "N")) space0)
                       (delimited (char_ "[") u32 (char_ "]")) input)
         (fun number rest =>
-           match rest with
-           | ";" :: _ =>
+           if starts_with [";"] rest then          (* opt(anychar)(rest)?.1 == Some(';') *)
                pbind (delimited (char_ ";") (take_till ".") (char_ ".") rest)
                  (fun xref rest1 =>
                     pbind (parse_line rest1) (fun _ rest2 => POk (number, Some (trim xref)) rest2))
-           | _ =>
-               pbind (parse_line input) (fun _ rest2 => POk (number, None) rest2)
-           end).
+           else
+               pbind (parse_line input) (fun _ rest2 => POk (number, None) rest2)).
 
   (* parse_datekind *)
   Definition parse_datekind : parser str :=
@@ -144,31 +152,30 @@ Section Grammar.
       pbind (parse_line rest) (fun _ rest => POk tt rest)))))))).
 
   (* parse_reference: the loop over the RX / RA / RL / RT lines *)
+  (* the two-letter line codes are compared with [starts_with] (the code matches the
+     string slice returned by take(2usize)) *)
   Fixpoint reference_loop (fuel : nat) (input : str) (pmid link title : option str)
     : pres (option str * option str * option str) :=
     match fuel with
     | O => PFuel
     | S f =>
         if negb (has_two_chars input) then PError      (* take(2usize)(input)? *)
-        else
-        match input with
-        | "R" :: "X" :: _ =>
+        else if starts_with (tg "R" "X") input then
             pbind (preceded (preceded (terminated (tag (tg "R" "X")) space0)
                                       (terminated (tag ["P"; "U"; "B"; "M"; "E"; "D"; ":"]) space0))
                             (terminated (take_till ".") (char_ ".")) input)
               (fun line rest => pbind (parse_line rest)
                  (fun _ rest' => reference_loop f rest' (Some line) link title))
-        | "R" :: "A" :: _ =>
+        else if starts_with (tg "R" "A") input then
             pbind (preceded (tag (tg "R" "A")) parse_line input)
               (fun _ rest => reference_loop f rest pmid link title)
-        | "R" :: "L" :: _ =>
+        else if starts_with (tg "R" "L") input then
             pbind (preceded (tag (tg "R" "L")) parse_line input)
               (fun line rest => reference_loop f rest pmid (Some (trim line)) title)
-        | "R" :: "T" :: _ =>
+        else if starts_with (tg "R" "T") input then
             pbind (preceded (tag (tg "R" "T")) parse_line input)
               (fun line rest => reference_loop f rest pmid link (Some (trim line)))
-        | _ => POk (pmid, link, title) input
-        end
+        else POk (pmid, link, title) input
     end.
 
   Definition parse_reference : parser reference :=
@@ -191,37 +198,37 @@ Section Grammar.
     match fuel with
     | O => PFuel
     | S f =>
-        pbind (parse_tag input) (fun t _ =>
+        pbind (parse_tag input) (fun kt _ =>
+        let t := snd kt in
         let field (k : str -> record) :=
           pbind (preceded (tag (tg (fst t) (snd t))) parse_line input)
                 (fun line rest => record_loop f rest (k (trim line))) in
         let skip :=
           pbind (preceded (tag (tg (fst t) (snd t))) parse_line input)
                 (fun _ rest => record_loop f rest r) in
-        match t with
-        | ("A", "C") => field (fun v => mkRec (r_id r) (Some v) (r_name r) (r_desc r) (r_data r) (r_refs r))
-        | ("B", "A") | ("B", "S") | ("B", "F") | ("C", "O") => skip
-        | ("C", "C") =>
+        match fst kt with
+        | TAC => field (fun v => mkRec (r_id r) (Some v) (r_name r) (r_desc r) (r_data r) (r_refs r))
+        | TBA | TBS | TBF | TCO => skip
+        | TCC =>
             pbind (many1 (preceded (tag (tg "C" "C")) parse_line) input)
                   (fun _ rest => record_loop f rest r)
-        | ("D", "E") => field (fun v => mkRec (r_id r) (r_ac r) (r_name r) (Some v) (r_data r) (r_refs r))
-        | ("D", "T") => pbind (parse_date input) (fun _ rest => record_loop f rest r)
-        | ("I", "D") => field (fun v => mkRec (Some v) (r_ac r) (r_name r) (r_desc r) (r_data r) (r_refs r))
-        | ("N", "A") => field (fun v => mkRec (r_id r) (r_ac r) (Some v) (r_desc r) (r_data r) (r_refs r))
-        | ("P", "0") | ("P", "O") =>
+        | TDE => field (fun v => mkRec (r_id r) (r_ac r) (r_name r) (Some v) (r_data r) (r_refs r))
+        | TDT => pbind (parse_date input) (fun _ rest => record_loop f rest r)
+        | TID => field (fun v => mkRec (Some v) (r_ac r) (r_name r) (r_desc r) (r_data r) (r_refs r))
+        | TNA => field (fun v => mkRec (r_id r) (r_ac r) (Some v) (r_desc r) (r_data r) (r_refs r))
+        | TP0 =>
             pbind (parse_alphabet input) (fun syms rest =>
             pbind (many1 (parse_row (length syms)) rest) (fun rows rest' =>
               record_loop f rest'
                 (mkRec (r_id r) (r_ac r) (r_name r) (r_desc r) (Some (build_matrix syms rows)) (r_refs r))))
-        | ("R", "N") =>
+        | TRN =>
             pbind (parse_reference input) (fun x rest =>
               record_loop f rest
                 (mkRec (r_id r) (r_ac r) (r_name r) (r_desc r) (r_data r) (r_refs r ++ [x])))
-        | ("/", "/") =>
+        | TEND =>
             pbind (preceded (tag (tg "/" "/")) (alt2 parse_line eof) input)
                   (fun _ rest => POk r rest)
-        | _ => (* "XX" *)
-            pbind (parse_line input) (fun _ rest => record_loop f rest r)
+        | TXX => pbind (parse_line input) (fun _ rest => record_loop f rest r)
         end)
     end.
 
